@@ -55,6 +55,10 @@ pub fn on_call(id: u32, args: &[Value], ret: &V) -> expression_engine::Result<Va
     if let Some(p) = probe {
         p(id);
     }
+    if id == crate::model::FAILING_FUNC {
+        // the context function that always fails
+        return Value::None.decimal().map(Value::Number);
+    }
     let armed = ARM.with(|a| *a.borrow());
     if let Some((k, mode)) = armed {
         if k == idx {
